@@ -313,6 +313,25 @@ func runC14(r *h.Run) {
 			if v, err := call("PluginDial(901)", func() (any, error) { return cmd.Do("dial", "901") }); err == nil && v.(string) != "id=901" {
 				r.Violate("misroute", ctx, fmt.Sprint(v))
 			}
+			// large responses over brokered connections, both ways (gRPC's default limit is 4MiB)
+			if gc, ok := cmd.(*plugins.GRPCClient); ok {
+				const brokeredBig = 5 << 20
+				cmd.Do("accept", "902")
+				if v, err := call("HostDialBig(902)", func() (any, error) {
+					conn, err := gc.Broker.Dial(902)
+					if err != nil {
+						return nil, err
+					}
+					defer conn.Close()
+					return plugins.BigOverConn(conn, brokeredBig, 60*time.Second)
+				}); err == nil && v.(int) != brokeredBig {
+					r.Violate("truncated-response", ctx+" brokered host->plugin", fmt.Sprint(v))
+				}
+				h.HostAccept(r, cmd, 903)
+				if v, err := call("PluginDialBig(903)", func() (any, error) { return cmd.Do("dialbig", fmt.Sprintf("903:%d", brokeredBig)) }); err == nil && v.(string) != fmt.Sprint(brokeredBig) {
+					r.Violate("truncated-response", ctx+" brokered plugin->host", fmt.Sprint(v))
+				}
+			}
 		}
 	}
 	switch expect {
